@@ -62,6 +62,10 @@ impl Diag {
             return;
         }
         if s.flags.syn {
+            if self.sides[x].iss.is_some() && self.sides[x].iss != Some(s.seq) {
+                // new incarnation of the 4-tuple: start over
+                self.sides[x] = DiagSide::default();
+            }
             let sx = &mut self.sides[x];
             sx.iss = Some(s.seq);
             sx.max_data_end = sx.max_data_end.max(1);
@@ -149,7 +153,13 @@ impl Diag {
         let sx = &self.sides[dir.idx()];
         let sy = &self.sides[dir.rev().idx()];
         let Some(f) = sx.fin_rel else { return false };
-        sx.fin_emits > retx_max
+        // the peer has completed its own close (its FIN was acknowledged), i.e.
+        // its TCB is Closed; our FIN was retransmitted at least once (it may
+        // share its retransmit budget with data sent before it)
+        let _ = retx_max;
+        let peer_closed = sy.fin_rel.map(|g| sy.a > g).unwrap_or(false);
+        sx.fin_emits >= 2
+            && peer_closed
             && sx.fin_delivered
             && sy.fin_delivered
             && sy.max_ack_emitted > f
